@@ -270,6 +270,7 @@ def run(ctx: Ctx):
             and kw.get("norm") == "False" and kw.get("include_eos") == "False"
         col.ob("G1", "S2", f"{where}::error_rate(costs)", ok,
                f"error_rate is called with {kw}; --costs is documented as INS DEL SUB", rel, c.lineno, sample=kw)
+    _per_utterance_divisors(ctx)
     plumbing(ctx, "S1")
     return dict(
         explanation=(
@@ -288,10 +289,71 @@ def run(ctx: Ctx):
     )
 
 
+def _per_utterance_divisors(ctx: Ctx):
+    """S6: an utterance's reference may be empty (or consist only of ignored tokens). A per-utterance figure that divides by
+    the reference length must guard that length; the corpus-level figure does not even need the per-utterance ratio, so an
+    unguarded division aborts the whole report for one silence-only utterance."""
+    from sa.defuse import ReachingDefs
+    col, pkg = ctx.col, ctx.pkg
+    f = pkg.func("command_line::compute_torch_token_data_dir_error_rates")
+    rel = f.module.relname
+    pm = parent_map(f.node)
+    rd = ReachingDefs(f.node)
+    sites = []
+    for n in own_nodes(f.node):
+        if isinstance(n, ast.BinOp) and isinstance(n.op, ast.Div):
+            rexprs = [n.right]
+            for x in ast.walk(n.right):
+                if isinstance(x, ast.Name):
+                    rexprs += [d.value for d in rd.defs_of(x) if d.kind == "assign" and d.value is not None]
+            lens_ = [c for e in rexprs for c in ast.walk(e) if isinstance(c, ast.Call) and call_name(c) == "len" and c.args
+                     and isinstance(c.args[0], ast.Name)]
+            # only lengths of loop-bound (per-utterance) sequences
+            per_utt = []
+            for c in lens_:
+                cur = n
+                while cur is not None:
+                    cur = pm.get(cur)
+                    if isinstance(cur, ast.For) and any(isinstance(x, ast.Name) and x.id == c.args[0].id for x in ast.walk(cur.target)):
+                        per_utt.append(c)
+                        break
+            if per_utt:
+                sites.append((n, per_utt[0]))
+    bad = []
+    for n, c in sites:
+        nm = c.args[0].id
+        guarded = False
+        cur = n
+        while cur is not None:
+            par = pm.get(cur)
+            if isinstance(par, ast.IfExp) and par.body is cur and any(isinstance(x, ast.Name) and x.id in (nm,) or
+                                                                      (isinstance(x, ast.Name) and x.id != nm and False) for x in ast.walk(par.test)):
+                guarded = True
+            if isinstance(par, ast.IfExp) and par.body is cur:
+                # a test on a name that was assigned the divisor
+                tn = {x.id for x in ast.walk(par.test) if isinstance(x, ast.Name)}
+                dn = {x.id for x in ast.walk(n.right) if isinstance(x, ast.Name)}
+                if tn & dn:
+                    guarded = True
+            cur = par
+        for t, pol in guards_of(pm, n):
+            if any(isinstance(x, ast.Name) and x.id == nm for x in ast.walk(t)):
+                guarded = True
+        clamp = any(isinstance(x, ast.Call) and call_name(x) == "max" for x in ast.walk(n.right)) or \
+            any(isinstance(x, ast.BoolOp) and isinstance(x.op, ast.Or) for x in ast.walk(n.right))
+        if not (guarded or clamp):
+            bad.append(n)
+    col.ob("G12", "S6", f"{rel}::compute_torch_token_data_dir_error_rates::per-utterance-length-divisor-guarded", bool(sites) and not bad,
+           f"`{u(bad[0])[:90] if bad else ''}` divides an utterance's error count by its reference length with no guard: one empty "
+           f"(or all-ignored) reference raises ZeroDivisionError and no figure is printed at all, although --distances on the same "
+           f"data works", rel, bad[0].lineno if bad else f.line, sample=[u(n)[:80] for n, _ in sites])
+
+
 def _mutants():
     from selftest.mutate import Mutant as M
     C = "command_line.py"
     return [
+        M("per-utt-rate-divides-by-empty-reference", "command_line.py", "error_rates[utt_id] = er.item() / denom if denom else float(er.item() > 0)", "error_rates[utt_id] = er.item() / denom", "per-utterance-length-divisor-guarded"),
         M("id-slice-negative-zero", "command_line.py", "x[fpl:len(x) - fsl]", "x[fpl:-fsl]", "no-negative-zero-slice-bound"),
         M("endswith-prefix-again", C, "if x.startswith(options.file_prefix) and x.endswith(options.file_suffix))\n    os.makedirs(options.ali_dir",
           "if x.startswith(options.file_prefix) and x.endswith(options.file_prefix))\n    os.makedirs(options.ali_dir", "G"),
